@@ -29,9 +29,9 @@ def signatures(n):
                 yield [(k, d.get(i, False)) for i, k in enumerate(ks)]
 
 
-def make(sig):
+def make(sig, method=False):
     names = ["p%d" % i for i in range(len(sig))]
-    parts = []
+    parts = ["self"] if method else []
     seen_slash = False
     last_po = max([i for i, (k, _) in enumerate(sig) if k == "PO"], default=-1)
     star_done = any(k == "VARPOS" for k, _ in sig)
@@ -47,6 +47,12 @@ def make(sig):
             parts.append(names[i] + ("=%d" % (100 + i) if d else ""))
         if i == last_po:
             parts.append("/")
+    if method:
+        # the '/' marker (if any) must come after self as well: positional-only block = self + PO params
+        src = "class K:\n    def f(%s):\n        return dict(locals())\n" % ", ".join(parts)
+        ns = {}
+        exec(src, ns)
+        return ns["K"]().f, names, src
     src = "def f(%s):\n    return dict(locals())\n" % ", ".join(parts)
     ns = {}
     exec(src, ns)
@@ -69,8 +75,10 @@ def search(n):
     from joblib.func_inspect import filter_args
     cases = accepted = 0
     known = {}
-    for sig in signatures(n):
-        f, names, src = make(sig)
+    for sig, method in [(s, m) for s in signatures(n) for m in (False, True)]:
+        if method and len(sig) >= n:
+            continue  # self counts as a parameter
+        f, names, src = make(sig, method)
         npos = sum(1 for k, _ in sig if k in ("PO", "POK"))
         kwnames = [nm for (k, _), nm in zip(sig, names) if k in ("PO", "POK", "KWONLY")]
         for a in range(0, npos + 2):
@@ -88,6 +96,8 @@ def search(n):
                             continue  # Python rejects the call: outside the property's domain
                         accepted += 1
                         exp = expected(sig, names, bound)
+                        if method:
+                            exp["self"] = f.__self__
                         try:
                             got = filter_args(f, [], args, dict(kwargs))
                             bad = got != exp
@@ -107,7 +117,7 @@ def search(n):
                             except Exception as e:
                                 bad, what = True, "ignore=[%r] raised %r" % (key, e)
                         if bad:
-                            return dict(violation=True, cases=cases, what=what, witness=dict(signature=src.splitlines()[0], args=list(args), kwargs=kwargs))
+                            return dict(violation=True, cases=cases, what=what, witness=dict(signature=src.strip().splitlines()[-2].strip(), bound_method=method, args=list(args), kwargs=kwargs))
     # bound methods: the first parameter of the class-level function is bound to the instance
     class K:
         def m(self, x, y=2, *a, z=3, **k):
